@@ -31,7 +31,7 @@ package bfe_http2
 //@   ensures[added] result0 ==> f.n == old(f.n) + n
 //@   ensures[unchanged_when_refused] !result0 ==> f.n == old(f.n)
 
-//@ package_invariant[sentinel_errors] errStreamID != nil && errPadLength != nil
+//@ package_invariant[sentinel_errors] errStreamID != nil && errPadLength != nil && errPseudoAfterRegular != nil
 
 //@ spec be32(p []byte) uint32 := uint32(p[0])*16777216 + uint32(p[1])*65536 + uint32(p[2])*256 + uint32(p[3])
 
@@ -540,3 +540,39 @@ package bfe_http2
 //@   ensures[no_control_bytes_except_tab] result0 ==> (forall i int :: 0 <= i && i < len(v) ==> (v[i] >= 32 || v[i] == 9) && v[i] != 127)
 //@   ensures[every_such_value_is_accepted] (forall i int :: 0 <= i && i < len(v) ==> (v[i] >= 32 || v[i] == 9) && v[i] != 127) ==> result0
 //@   loop 1 invariant[checked_so_far] 0 <= i && i <= len(v) && (forall k int :: 0 <= k && k < i ==> (v[k] >= 32 || v[k] == 9) && v[k] != 127)
+
+// The emit function of readMetaFrame is the only place where a decoded field enters MetaHeadersFrame.Fields.
+// Its contract is an invariant of that list: every accepted field has a clean value, and a regular field has a
+// name accepted by validHeaderFieldName (an abstract predicate here: the token table is not modelled).
+//@ spec cleanValue(v string) bool := forall i int :: 0 <= i && i < len(v) ==> (v[i] >= 32 || v[i] == 9) && v[i] != 127
+//@ spec okFieldName(v string) bool := abstract
+//@ spec cleanFields(mh *MetaHeadersFrame) bool := forall k int :: 0 <= k && k < len(mh.Fields) ==> cleanValue(mh.Fields[k].Value) && (hasPrefix(mh.Fields[k].Name, ":") || okFieldName(mh.Fields[k].Name))
+
+//@ func validHeaderFieldName
+//@   props C25
+//@   trusted the table-driven name check is named, not modelled (it ranges over runes)
+//@   modifies nothing
+//@   ensures result0 == okFieldName(v)
+
+//@ func (*Framer).checkHeaderFieldLimit
+//@   props C25
+//@   requires fr != nil && f != nil && hf != nil
+//@   frame * pure
+//@   note the size limit getters and the counter increment are assumed to write nothing the contracts mention
+//@   modifies nothing
+
+//@ func (*Framer).readMetaFrame$1
+//@   props C25
+//@   requires fr != nil && f != nil && mh != nil && hdec != nil
+//@   requires[accepted_fields_are_clean] len(mh.Fields) >= 0 && cleanFields(mh)
+//@   requires[a_decoded_field_fits_the_size_arithmetic] entSize(hf) < 4294967296
+//@   frame * keeps mh, fr, f, hdec, invalid, sawRegular, mh.Fields, any hpack.HeaderField.Name, any hpack.HeaderField.Value
+//@   note the decoder's switches (SetEmitEnabled) and the counters are assumed not to touch the accepted field list
+//@   modifies *
+//@   ensures[the_frame_is_the_same] mh == old(mh)
+//@   ensures[at_most_this_field_is_added] len(mh.Fields) == old(len(mh.Fields)) || (len(mh.Fields) == old(len(mh.Fields)) + 1 && mh.Fields[len(mh.Fields)-1].Value == hf.Value && mh.Fields[len(mh.Fields)-1].Name == hf.Name)
+//@   ensures[a_field_is_added_only_when_nothing_is_wrong] len(mh.Fields) != old(len(mh.Fields)) ==> invalid == nil
+//@   ensures[an_added_field_has_a_clean_value] len(mh.Fields) != old(len(mh.Fields)) ==> cleanValue(hf.Value)
+//@   ensures[an_added_regular_field_has_a_valid_name] len(mh.Fields) != old(len(mh.Fields)) ==> hasPrefix(hf.Name, ":") || okFieldName(hf.Name)
+//@   ensures[earlier_fields_are_untouched] forall k int :: 0 <= k && k < old(len(mh.Fields)) ==> mh.Fields[k].Value == old(mh.Fields[k].Value) && mh.Fields[k].Name == old(mh.Fields[k].Name)
+//@   ensures[accepted_fields_stay_clean] cleanFields(mh)
